@@ -117,12 +117,17 @@ func init() {
 		Bounds: "as above with symbolic price table and gas price"}
 	for _, id := range []string{"C01", "C02", "C03", "C04", "C05", "C06", "C07", "C27"} {
 		add(id, txAssumptions, tier("quick", send)...)
+	}
+	// the symbolic-pool variant takes ~20 minutes per configuration and leaves
+	// some paths undecided (non-linear reserves): it runs in the thorough tier of
+	// the two properties whose assertions it can add something to
+	for _, id := range []string{"C03", "C07"} {
 		add(id, txAssumptions, tier("thorough", sendP)...)
 	}
 	for _, id := range []string{"C01", "C02", "C03", "C07"} {
 		add(id, txAssumptions, tier("quick", failFee)...)
-		add(id, txAssumptions, tier("thorough", failFeeSym)...)
 	}
+	add("C07", txAssumptions, tier("thorough", failFeeSym)...)
 
 	// (no bancor gas coin here: with the formula as an uninterpreted function the
 	// fee of the second delivery would be unrelated to the first one's)
